@@ -64,7 +64,7 @@ CLAIMS["C01"] = dict(
     design="DESIGN.md section 4, C01")
 
 CLAIMS["C15"] = dict(
-    text="Nine exact necessary conditions of crash-freedom over the btcdeb-authored units: no explicit throw leaves an entry point "
+    text="Eleven exact necessary conditions of crash-freedom over the btcdeb-authored units: the session driver never asserts on session state; the secp256k1 verification context is alive wherever it is used (call-graph rule per tool); no explicit throw leaves an entry point "
          "(mains, kerl callbacks); allocator/deallocator families agree; transaction-derived indices are range-checked before use; "
          "stores into fixed arrays are bounded; a failed fgets buffer is not read; division/shift by script data is guarded; "
          "assert-backed size preconditions are established at every authored call site; `default: assert(0)` of opcode switches is "
@@ -83,14 +83,14 @@ CLAIMS["C07"] = dict(
     text="Sibling agreement of the tables and ladders the compiler output depends on: GetOpCode rows vs enumerators (every name, aliases "
          "included), GetOpName, consensus opcode bytes; the push-size ladder of writer / minimality judge / reader; the small-integer "
          "ladder of push_int64 / CheckMinimalPush / interpreter decode. Tokenisation and literal classification are value-level and not decided.",
-    technique="table and threshold-ladder extraction from the resolved AST, sibling agreement",
+    technique="table extraction from the resolved AST; class ladders read off the decided comparisons of each path (intervals over G-SYM outcomes); sibling agreement",
     design="DESIGN.md section 4, C07")
 
 CLAIMS["C14"] = dict(
     text="Agreement of the `tf` command table with the inline dispatcher (every advertised inline name accepted and bound to the same "
          "Value operations), compact-size prefix ladder vs the serializer's, hash compositions (transforms and opcode forms), and "
-         "non-emptiness guards after a failed decode. The computed values (hashes, codecs, arithmetic) are not decided.",
-    technique="table agreement + ladder/call-sequence extraction + guard dominance",
+         "non-emptiness guards after a failed decode, and no modulus-free negation handed to the modular add helper. The computed values (hashes, codecs, arithmetic) are not decided.",
+    technique="table agreement + interval ladders over G-SYM outcomes + call-sequence extraction + guard dominance",
     design="DESIGN.md section 4, C14")
 
 CLAIMS["C11"] = dict(
@@ -105,7 +105,8 @@ CLAIMS["C12"] = dict(
     text="Counting/pairing analysis between the listing built in main and the position counter: every listed section is counted under "
          "the same guard, the line array is sized after all counting, the taproot commitment is described with exactly as many lines "
          "as Iterate() executes steps, each script switch advances the marker once, the P2SH section is listed under the stepper's "
-         "predicate, the counter moves by one per step/rewind, and print/echo are indexed and bounded by it. Line text is not decided.",
+         "predicate, the counter moves by one per step/rewind, a failed step restores every snapshotted field (so the marker keeps designating the next operation), "
+         "and print/echo are indexed and bounded by it. Line text is not decided.",
     technique="structural counting (linear forms in the path length), guard agreement, CFG must-pass",
     design="DESIGN.md section 4, C12")
 
@@ -114,7 +115,7 @@ CLAIMS["C13"] = dict(
          "and predicate of the two rejections, txid/wtxid serialisation flags, exception containment and trailing-byte rejection for "
          "malformed input, amount parsing parameters, and the compact-size ladder with canonical-form bounds. Bit-exact round trip and "
          "field values are not decided.",
-    technique="stream-operation sequence extraction per structured path, writer<->reader mirroring, ladder agreement, exception escape",
+    technique="reader / writer as item lists over locations per path (G-SYM), rejections from decided conditions, interval ladders, exception escape",
     design="DESIGN.md section 4, C13")
 
 CLAIMS["C05"] = dict(
@@ -122,7 +123,7 @@ CLAIMS["C05"] = dict(
          "constants: tagged hashers, leaf stream, node byte-slice (offset as a linear form in the node index), ordering predicate, path "
          "length, internal/output key slices, final CheckTapTweak arguments; the control-size predicate; def-use of the exported leaf "
          "hash into the signing data; CheckTapTweak hands parity to libsecp. SHA-256 / secp256k1 are trusted.",
-    technique="normalised-fact extraction from both implementations (byte-slice normaliser, stream operand order), sibling agreement",
+    technique="both implementations mapped to Herbrand terms over the same atoms (G-SYM), byte ranges normalised to slice(container, offset, length), sibling agreement",
     design="DESIGN.md section 4, C05")
 
 CLAIMS["C06"] = dict(
@@ -130,7 +131,7 @@ CLAIMS["C06"] = dict(
          "of the compare-and-swap idiom: smaller child first), tweak stream, control-block layout and parity polarity (finite-domain "
          "tabulation of the two key prefixes), Prove's sibling selection and bottom-up order, and data-flow non-interference of the "
          "printed address with the spend selection. Tree shape for every n, secp256k1/bech32m and the reported sighash value are not decided.",
-    technique="writer/reader fact agreement, symbolic evaluation over a finite domain, data-dependence closure",
+    technique="writer/reader term agreement (G-SYM; the branch ordering is decided from the comparison each path took), finite-domain tabulation, data-dependence closure",
     design="DESIGN.md section 4, C06")
 
 CLAIMS["C03"] = dict(
@@ -143,12 +144,13 @@ CLAIMS["C03"] = dict(
     design="DESIGN.md section 4, C03")
 
 CLAIMS["C02"] = dict(
-    text="Digest layout conformance and bookkeeping: the ordered, guarded operand sequences streamed for BIP341/342, BIP143 and the legacy "
-         "sighash equal the spec tables (spec/digests.json) through a binding table; spend_type, output/input type, hash-type validity, "
-         "BIP143 sub-hash selection and the legacy flags are tabulated over their finite domains (hash_type 0..255); the session stepper "
+    text="Digest layout conformance and bookkeeping: for every hash type 0..255, script version, annex and cache state the typed byte "
+         "stream hashed by SignatureHashSchnorr / SignatureHash / the legacy serializer / the five sub-hash helpers, computed as a term per path, "
+         "equals the stream BIP341/342, BIP143 and the legacy SIGHASH rules prescribe (field names from spec/digests.json; single vs double SHA256 included); "
+         "Schnorr size / 0x00 hash-type rules and normalise-in-place are read off the call events per path; the session stepper "
          "keeps opcode_pos like EvalScript; every asserted execdata init flag is set before a taproot/tapscript session; the two ECDSA "
          "sites and the tapscript signature budget agree with the reference. Signature validity itself (ECDSA/Schnorr, DER) is not decided.",
-    technique="stream-operand sequence vs spec table, finite-domain tabulation (constant folding over 0..255), must-assign dominance",
+    technique="path-sensitive value numbering (Herbrand terms of the hashed byte stream per path, G-SYM) compared with the BIP terms for every hash type 0..255, must-assign dominance, call-event ordering",
     design="DESIGN.md section 4, C02")
 
 NOT_YET = "check not built yet in this round (see DESIGN.md section 7 build order)"
@@ -199,7 +201,7 @@ def main():
             "path": "/verif/check",
             "serves_properties": sorted(CLAIMS),
             "kind_free_text": "custom static analysis: clang-14 LibTooling extractor (resolved AST + clang::CFG per function) "
-                              "and Python rule engines (call graph, write-sets, exception escape, dominance, table agreement)",
+                              "and Python rule engines (call graph, write-sets, exception escape, dominance, table agreement, path-sensitive value numbering over Herbrand terms)",
         }],
         "checks": checks,
         "not_applicable": na,
